@@ -548,8 +548,8 @@ dots(const uint8_t *s, size_t len) {
     if (s[1] == '2' && (s[2] == 'E' || s[2] == 'e')) {
       s += 2;
       len -= 2;
+      p = '.';
     }
-    p = '.';
   }
   if (p != '.')
     return 0;
@@ -564,8 +564,8 @@ dots(const uint8_t *s, size_t len) {
   if (p == '%' && len >=3) {
     if (s[1] == '2' && (s[2] == 'E' || s[2] == 'e')) {
       len -= 2;
+      p = '.';
     }
-    p = '.';
   }
   if (p != '.')
     return 0;
